@@ -240,6 +240,11 @@ type RollbackSpec struct {
 	Outcome   string `json:"outcome"`              // commit | rollback | lockonly
 	Mode      string `json:"mode"`                 // delete | truncate | persist
 	WALHeader bool   `json:"wal_header,omitempty"` // commit page 1 with file-format 2/2 (switch to WAL)
+	// ExclusiveFirst: EXCLUSIVE is taken straight from SHARED (PENDING, then the
+	// shared range) and RESERVED is never locked - what SQLite does when it
+	// leaves WAL mode (pagerExclusiveLock in sqlite3PagerCloseWal; the header
+	// rewrite that follows finds the lock already at EXCLUSIVE).
+	ExclusiveFirst bool `json:"exclusive_first,omitempty"`
 }
 
 // Result of a transaction step sequence.
@@ -270,7 +275,12 @@ func (c *Conn) RunRollbackTx(spec RollbackSpec) (res TxResult) {
 	if err := c.SharedLock(); err != nil {
 		return fail("shared-lock", err)
 	}
-	if err := c.ReservedLock(); err != nil {
+	if spec.ExclusiveFirst {
+		if err := c.ExclusiveLock(); err != nil {
+			_ = c.UnlockAll()
+			return fail("exclusive-lock", err)
+		}
+	} else if err := c.ReservedLock(); err != nil {
 		_ = c.UnlockAll()
 		return fail("reserved-lock", err)
 	}
@@ -369,7 +379,7 @@ func (c *Conn) RunRollbackTx(spec RollbackSpec) (res TxResult) {
 	}
 	joff := segOff + sector
 	segRecs := uint32(0)
-	exclusive := false
+	exclusive := spec.ExclusiveFirst
 	pending := []uint32{} // modified in cache, not yet written to the database file
 	journaled := map[uint32]bool{}
 	cutDirty := map[uint32][]byte{} // see RollbackSpec.DirtyCut
